@@ -7,6 +7,10 @@ import (
 	"net/http"
 	"strings"
 	"testing"
+	"time"
+
+	"github.com/basecamp/kamal-proxy/internal/verif/vsched"
+	"github.com/basecamp/kamal-proxy/internal/verif/vsync"
 )
 
 func init() { checks["C10"] = checkC10 }
@@ -322,6 +326,65 @@ func c10HSpec(tier string) *HSpec {
 	return spec
 }
 
+// ---- engine S part: a rollout command racing with opted-in requests; afterwards the command's effect holds
+
+func c10Scenario(cmd string) *Scenario {
+	sc := &Scenario{Name: "C10-S opted-in requests || " + cmd, Horizon: 30 * time.Second}
+	const host = "a.example.com"
+	var after []*ReqObs
+	sc.Run = func(w *World) {
+		after = nil
+		w.AddTarget("oa:80")
+		w.AddTarget("ra:80")
+		w.AddTarget("rb:80")
+		w.Deploy(deployArgs("s1", []string{"oa:80"}, []string{host}, nil))
+		w.RolloutDeploy("s1", []string{"ra:80"})
+		if cmd != "set-first" {
+			w.RolloutSet("s1", 100, nil)
+		}
+		time.Sleep(100 * time.Millisecond)
+		var wg vsync.WaitGroup
+		w.S.SetWindow(true)
+		wg.Add(3)
+		for i := 0; i < 2; i++ {
+			i := i
+			vsched.GoTagged("client", func() {
+				defer wg.Done()
+				w.Do(ReqSpec{ID: fmt.Sprintf("racing%d", i), Host: host, Cookie: "kamal-rollout=v"})
+			})
+		}
+		vsched.GoTagged("cmd", func() {
+			defer wg.Done()
+			switch cmd {
+			case "stop":
+				w.RolloutStop("s1")
+			case "set-0":
+				w.RolloutSet("s1", 0, nil)
+			case "set-first":
+				w.RolloutSet("s1", 100, nil)
+			case "redeploy-rollout":
+				w.RolloutDeploy("s1", []string{"rb:80"})
+			}
+		})
+		wg.Wait()
+		w.S.SetWindow(false)
+		for i := 0; i < 2; i++ {
+			after = append(after, w.Do(ReqSpec{ID: fmt.Sprintf("after%d", i), Host: host, Cookie: "kamal-rollout=v"}))
+		}
+	}
+	sc.Check = func(w *World) []Violation {
+		var vs []Violation
+		want := map[string]string{"stop": "oa:80", "set-0": "oa:80", "set-first": "ra:80", "redeploy-rollout": "rb:80"}[cmd]
+		for _, r := range after {
+			if r.Status != 200 || r.ServedBy() != want {
+				vs = append(vs, Violation{"C10", "split-after-command-not-in-force " + cmd, fmt.Sprintf("after `rollout %s` returned (it raced with opted-in requests) an opted-in request got %s, expected %s", cmd, r.Summary(), want)})
+			}
+		}
+		return vs
+	}
+	return sc
+}
+
 func checkC10(t *testing.T, job *Job, res *Result) {
 	tier := job.Tier
 	if job.Replay != nil {
@@ -336,5 +399,17 @@ func checkC10(t *testing.T, job *Job, res *Result) {
 		spec := c10HSpec(tier)
 		exploreH(t, job, res, spec)
 	}
-	res.Engine = "E+H"
+	if job.Replay == nil || job.Replay.Engine == "S" {
+		var scs []*Scenario
+		for _, c := range []string{"stop", "set-0", "set-first", "redeploy-rollout"} {
+			scs = append(scs, c10Scenario(c))
+		}
+		b := Bounds{D: 2, S: 0}
+		if tier == "thorough" {
+			b = Bounds{D: 3, S: 0}
+		}
+		runS(t, job, res, "C10", withReversed(scs), b, 0)
+	}
+	res.Engine = "E+H+S"
+	res.Rule += "; engine S: rollout stop / set / first set / rollout redeploy racing with two opted-in requests, every schedule within the bounds: opted-in requests issued after the command returned follow the command"
 }
